@@ -1,5 +1,5 @@
 #!/usr/bin/env python3
-"""Anchored-constants translator tie (DESIGN.md §4.5) for C03, C01 (shared Lp.Interp) and C11.
+"""Anchored-constants translator tie (DESIGN.md §4.5) for C03, C01 (shared Lp.Interp), C11 and C14.
 
 The numeric literals of /repo's sources that the Lean models (and therefore the theorems) depend
 on are *read from the current source text on every run* and written to
@@ -8,6 +8,7 @@ on are *read from the current source text on every run* and written to
     lean/LpModel/C01/Constants.lean   namespace Lp.C01.K     (src/Numerics.cpp §1; imported by LpModel/Interp.lean)
     lean/LpModel/C11/Constants.lean   namespace Lp.C11.K     (src/Numerics.cpp §3)
     lean/LpModel/C06/Constants.lean   namespace Lp.C06.K     (src/Special_Functions.cpp §2.1)
+    lean/LpModel/C14/Constants.lean   namespace Lp.C14.K     (src/Integration.cpp: Miser, Integrate_MC_Miser, Integrate_MC_Vegas)
 
 as one `abbrev name : Rat|Nat|Int := value` per constant (abbrev = reducible, so `ring`, `norm_num`,
 `simp`, `decide` see through it).  The models refer to these names instead of carrying literals: a
@@ -100,6 +101,9 @@ SCOPES = {
     "bracket": ("src/Numerics.cpp", "void Bracket(const double a, const double b, T& func)", r"^\};"),
     "brent": ("src/Numerics.cpp", "double Minimize(T& func)", r"^\};"),
     "neldermead": ("src/Numerics.cpp", "std::vector<double> Minimization::minimize(std::vector<std::vector<double>>& pp, std::function<double(std::vector<double>)> func)", r"^\}"),
+    "miser": ("src/Integration.cpp", "void Miser(std::function<double(std::vector<double>&, const double)> func, std::vector<double>& region, const int npts,", r"^\}"),
+    "vegas": ("src/Integration.cpp", "double Integrate_MC_Vegas(std::function<double(std::vector<double>&, const double)> func, std::vector<double>& region, const int init, const int ncall, const int itmx, const int nprn)", r"^\}"),
+    "miser_top": ("src/Integration.cpp", "double Integrate_MC_Miser(std::function<double(std::vector<double>&, const double)> func, std::vector<double>& region, const int ncall)", r"^\}"),
 }
 
 SPEC = {
@@ -193,6 +197,17 @@ SPEC = {
         C("nmContract", "neldermead", "double ysave = y[ihi]; ytry = amotry(current_simplex, y, psum, ihi, @, func);", "dec", "0.5", "contraction factor"),
         C("nmShrink", "neldermead", "current_simplex[i][j] = psum[j] = @ * (current_simplex[i][j] + current_simplex[ilo][j]);", "dec", "0.5", "shrink factor"),
         C("nmRtolTwo", "neldermead", "double rtol = @ * fabs(y[ihi] - y[ilo]) / (fabs(y[ihi]) + fabs(y[ilo]) + TINY);", "dec", "2.0", "factor of the fractional range"),
+    ]),
+    "C14": dict(namespace="Lp.C14.K", out="LpModel/C14/Constants.lean", consts=[
+        C("mnpt", "miser", "const int MNPT = @, MNBS = #;", "int", "15", "MNPT of Miser: smallest number of points handed to a half"),
+        C("mnbs", "miser", "const int MNPT = #, MNBS = @;", "int", "60", "MNBS of Miser: below this budget a call is a leaf (plain sampling)"),
+        C("pfac", "miser", "const double PFAC = @, TINY = #, BIG = #;", "dec", "0.1", "PFAC of Miser: fraction of the budget spent on pre-sampling"),
+        C("tinyMiser", "miser", "const double PFAC = #, TINY = @, BIG = #;", "dec", "1.0e-30", "TINY of Miser (floor of the spreads; the model omits the floor, theorem miser_floors_out_of_range)"),
+        C("bigMiser", "miser", "const double PFAC = #, TINY = #, BIG = @;", "dec", "1.0e30", "BIG of Miser (start value of the min/max search; omitted by the model, theorem miser_floors_out_of_range)"),
+        C("mnptTwice", "miser", "nptl = int(MNPT + (npts - npre - @ * MNPT) * fracl * siglb", "int", "2", "points reserved for the two halves: 2*MNPT"),
+        C("ndmx", "vegas", "static const int NDMX = @, MXDIM = #;", "nat", "50", "NDMX of Vegas: allocated grid bins per axis"),
+        C("mxdim", "vegas", "static const int NDMX = #, MXDIM = @;", "nat", "10", "MXDIM of Vegas: allocated number of axes"),
+        C("dith", "miser_top", "double dith = @;", "dec", "0.0", "dither of Integrate_MC_Miser (the model's rmid assumes 0, theorem miser_dith_zero)"),
     ]),
 }
 
